@@ -298,7 +298,16 @@ def sets(allow_nested=True):
             st.lists(hashable_atoms(k), max_size=3).map(lambda e: ["frozenset", _uniq(e)]),
             min_size=2, max_size=4).map(_uniq)
     ).flatmap(lambda els: st.sampled_from(["set", "frozenset"]).map(lambda t: [t, els]))
-    return st.one_of(base, fs_of_fs)
+    # elements that are only partially ordered although they are not sets themselves: tuples with
+    # a common prefix followed by frozensets
+    tup_of_fs = kind.flatmap(
+        lambda k: st.tuples(
+            hashable_atoms(k),
+            st.lists(st.lists(hashable_atoms(k), max_size=3).map(lambda e: ["frozenset", _uniq(e)]),
+                     min_size=2, max_size=4).map(_uniq))
+    ).flatmap(lambda pe: st.sampled_from(["set", "frozenset"]).map(
+        lambda t: [t, [["tuple", [pe[0], fs]] for fs in pe[1]]]))
+    return st.one_of(base, fs_of_fs, tup_of_fs)
 
 
 def arrays():
@@ -529,12 +538,23 @@ def mutation_of(draw, spec):
     return None
 
 
+def _hashable_spec(spec):
+    t = spec[0]
+    if t in ("int", "str", "bytes", "bool", "none", "float", "complex", "path", "range", "type"):
+        return True
+    if t in ("frozenset", "tuple"):
+        return all(_hashable_spec(e) for e in spec[1])
+    return False
+
+
 def _still_valid(spec):
     """sets/dict keys must stay homogeneous + hashable after a mutation"""
     t = spec[0]
     if t in ("set", "frozenset"):
         ks = {e[0] for e in spec[1]}
-        if len(ks) > 1 or (ks and next(iter(ks)) not in ("int", "str", "bytes", "frozenset")):
+        if len(ks) > 1 or (ks and next(iter(ks)) not in ("int", "str", "bytes", "frozenset", "tuple")):
+            return False
+        if not all(_hashable_spec(e) for e in spec[1]):
             return False
         if len({json.dumps(norm(e)) for e in spec[1]}) != len(spec[1]):
             return False
@@ -548,4 +568,6 @@ def _still_valid(spec):
         return all(_still_valid(e) for e in spec[1])
     if t in ("attrs", "obj"):
         return all(_still_valid(v) for v in spec[2].values())
+    if t == "slice":
+        return all(_still_valid(e) for e in spec[1:4])
     return True
